@@ -16,7 +16,9 @@ def optVal (sel : Sel) : Option UnitDB → Nat
 
 /-- Model state `s` carries the ghost record `g`. -/
 structure Inv (g : Ghost) (s : State) : Prop where
-  clock : s.clock = g.now
+  clock : s.clock = g.clock
+  nowClock : g.now ≤ g.clock
+  chi : g.clock < U32
   cur : s.curr.id = g.now
   lim : s.limitHours = g.limit
   ivl : validIvl s.limit = true
@@ -116,7 +118,8 @@ theorem optVal_le_upperAt {g : Ghost} {s : State} (hi : Inv g s) (h : Nat) (sel 
 theorem inv_reconf {g : Ghost} {s : State} (hi : Inv g s) (ms : Nat) (en : Bool) (hv : validIvl ms = true) :
     Inv ({ g with limit := ms / msPerHour, enabled := en } : Ghost).refresh
         { s with limit := ms, enabled := en } := by
-  refine { clock := hi.clock, cur := hi.cur, lim := rfl, ivl := hv, en := rfl, lo := hi.lo, hi := hi.hi,
+  refine { clock := hi.clock, nowClock := hi.nowClock, chi := hi.chi, cur := hi.cur, lim := rfl, ivl := hv,
+           en := rfl, lo := hi.lo, hi := hi.hi,
            evHour := ?_, evKept := ?_, dbUp := ?_, curUp := ?_, curLo := ?_, dbLo := ?_ }
   · intro e' he'
     obtain ⟨e, he, h1, _⟩ := mem_rekeep he'
@@ -147,10 +150,12 @@ theorem inv_reconf {g : Ghost} {s : State} (hi : Inv g s) (ms : Nat) (en : Bool)
     rw [show (List.map _ g.evs) = rekeep (inWindow g.now (ms / msPerHour)) g.evs from rfl]
     exact Nat.le_trans (loAt_rekeep_le ..) this
 
-/-- Everything forgotten at the same hour (`clear`, `setDays 0`). -/
+/-- Everything forgotten; the fresh unit is for the hour the clock shows
+(`clear`, `setDays 0`). -/
 theorem inv_clear {g : Ghost} {s : State} (hi : Inv g s) (en : Bool) :
-    Inv { g with enabled := en, evs := [] } (clear { s with enabled := en }) := by
-  refine { clock := hi.clock, cur := ?_, lim := hi.lim, ivl := hi.ivl, en := rfl, lo := hi.lo, hi := hi.hi,
+    Inv { g with enabled := en, evs := [], now := g.clock } (clear { s with enabled := en }) := by
+  refine { clock := hi.clock, nowClock := Nat.le_refl _, chi := hi.chi, cur := ?_, lim := hi.lim, ivl := hi.ivl,
+           en := rfl, lo := Nat.le_trans hi.lo hi.nowClock, hi := hi.chi,
            evHour := ?_, evKept := ?_, dbUp := ?_, curUp := ?_, curLo := ?_, dbLo := ?_ }
   · simp [clear, newUnit, hi.clock]
   · intro e he; simp at he
@@ -159,5 +164,12 @@ theorem inv_clear {g : Ghost} {s : State} (hi : Inv g s) (en : Bool) :
   · intro sel; cases sel <;> simp [clear, newUnit, MemUnit.serialize, Sel.val]
   · intro sel; simp [lowerAt, cnt]
   · intro h _ sel; simp [lowerAt, cnt]
+
+/-- The clock moves on, the module has not noticed. -/
+theorem inv_advance {g : Ghost} {s : State} (hi : Inv g s) (h : Nat) (d : Bool) (h1 : g.clock ≤ h) (h2 : h < U32) :
+    Inv { g with clock := h, dom := d } (advance s h) :=
+  { clock := rfl, nowClock := Nat.le_trans hi.nowClock h1, chi := h2, cur := hi.cur, lim := hi.lim, ivl := hi.ivl,
+    en := hi.en, lo := hi.lo, hi := hi.hi, evHour := hi.evHour, evKept := hi.evKept, dbUp := hi.dbUp,
+    curUp := hi.curUp, curLo := hi.curLo, dbLo := hi.dbLo }
 
 end AGH.C09
